@@ -32,14 +32,16 @@ func (ch *Chain) ExportImport() (same bool, err error) {
 	}
 	f2, ctx2 := NewFixture()
 	ctx2 = ctx2.WithBlockHeader(ch.Ctx.BlockHeader())
-	f2.Account.InitGenesis(ctx2, *f.Account.ExportGenesis(ch.Ctx))
-	f2.Bank.InitGenesis(ctx2, f.Bank.ExportGenesis(ch.Ctx))
+	// InitChain runs the modules' InitGenesis on a context whose block height is 0 (initial height 1); blocks then continue
+	initCtx := ctx2.WithBlockHeight(0)
+	f2.Account.InitGenesis(initCtx, *f.Account.ExportGenesis(ch.Ctx))
+	f2.Bank.InitGenesis(initCtx, f.Bank.ExportGenesis(ch.Ctx))
 	it := ch.Ctx.KVStore(f.Keys[permStoreKey]).Iterator(nil, nil)
 	for ; it.Valid(); it.Next() {
 		ctx2.KVStore(f2.Keys[permStoreKey]).Set(append([]byte{}, it.Key()...), append([]byte{}, it.Value()...))
 	}
 	it.Close()
-	f2.Host.InitGenesis(ctx2, &gs2)
+	f2.Host.InitGenesis(initCtx, &gs2)
 	bz3, err := f2.Cdc.MarshalJSON(f2.Host.ExportGenesis(ctx2))
 	if err != nil {
 		return false, err
